@@ -211,6 +211,15 @@ impl Scenario {
         RandSrc::AllZero => rnd = [0u8; 32],
         RandSrc::AllOnes => rnd = [0xff; 32],
       }
+      // a generator is a long-lived client object: now and then it has already been
+      // used with ANOTHER randomness (e.g. a local report before a server-randomness one)
+      if rng.gen_range(0..6) == 0 {
+        let mut other = [0u8; 32];
+        rng.fill(&mut other[..]);
+        let _ = Message::generate(&mg, &other, None);
+        let mut lr = [0u8; 32];
+        mg.sample_local_randomness(&mut lr);
+      }
       let msg = Message::generate(
         &mg,
         &rnd,
